@@ -979,3 +979,35 @@ def _InterpLO(it, ctx, a, k):
         return base.elem((b[len(b) - bb:] if bb else []) + [r, c_])
 
     return VTensor(lead + [li.dims[-2], ri.dims[-2]], elem, "real", True, linop_class="InterpolatedLinearOperator")
+
+
+
+@op("torch.full_like")
+def _full_like(it, ctx, a, k):
+    t = as_tensor(a[0])
+    fv = a[1] if len(a) > 1 else k["fill_value"]
+    term = E.to_real(fv.t) if isinstance(fv, VNum) else as_tensor(fv).elem([])
+    return E.full(list(t.dims), term)
+
+
+T["torch.nan"] = VNum(E.NANV)
+T["math.nan"] = VNum(E.NANV)
+
+
+@op("linear_operator.operators.MaskedLinearOperator")
+def _MaskedLO(it, ctx, a, k):
+    """MaskedLinearOperator(base, row_mask, col_mask) = base[..., row_mask, :][..., :, col_mask], kept IN PLACE: entries outside the masks read 0, so
+    products and sums over the masked operator equal those over the compressed one; its visible extents are not modelled (value semantics only)"""
+    base, rm, cm = as_tensor(a[0]).frozen(), as_tensor(a[1]).frozen(), as_tensor(a[2]).frozen()
+    nl = base.natoms() - 2
+
+    def elem(idx):
+        i, j = idx[nl], idx[nl + 1]
+        def tb(x):
+            return x if z3.is_bool(x) else (x != 0)
+        return z3.If(z3.And(tb(rm.elem([i])), tb(cm.elem([j]))), E.to_real(base.elem(idx)), z3.RealVal(0))
+
+    r = VTensor(list(base.dims), elem, "real", True, linop_class="MaskedLinearOperator")
+    r.meta["masked_rows_cols"] = (a[1], a[2])
+    r.meta["masked_base"] = a[0]
+    return r
